@@ -23,6 +23,13 @@ def qk():
   return qkeras
 
 
+def K3():
+  """the Keras the library itself builds on (`import tensorflow.keras`): after qkeras is imported the lazy attribute
+  `tf.keras` resolves to the legacy tf_keras package, which is NOT what the quantized layers subclass"""
+  import tensorflow.keras as keras
+  return keras
+
+
 def weight_shapes(layer):
   return [tuple(int(d) for d in w.shape) for w in layer.weights]
 
